@@ -305,6 +305,16 @@ func (f *fetcher) getFromCacheOrFetch(req *http.Request, key cache.CacheKey, cli
 func (f *fetcher) dedupFetch(req *http.Request, key cache.CacheKey, clientHd *headers.HeaderDirectives) (fetched fetchResult, err error) {
 	slog.Debug("Attempting to dedup fetch...")
 
+	if req.ContentLength != 0 {
+		// A request body can be read only once and it comes from this one client's connection. Such a request
+		// is neither shared with other clients (if this client stalled or hung up mid-body, everybody waiting on
+		// the shared fetch would fail with it) nor sent a second time after a cache-side failure (the body is
+		// gone by then): it is relayed as it is.
+		slog.Debug("Request carries a body, relaying it directly...")
+		metrics.Global.Requests.NonCoalescedRequests.Increment()
+		return f.fetchDirectlyFromUpstream(req)
+	}
+
 	shouldCoalesce := !clientHd.Range.IsPresent() && req.Method == http.MethodGet
 	if !shouldCoalesce {
 		// These requests also aren't cacheable, so they just go straight to upstream..
